@@ -47,6 +47,8 @@ def units(tier, seed):
             out.append(dict(space=pl["extra_space"], lo=i, hi=min(n, i + 100),
                             seeds=pl["seeds"][:8], slots=pl["slots"][:2],
                             aw="0/4"))
+    out.append(dict(space="modular",
+                    seeds=pl["seeds"][:6 if tier == "quick" else 16]))
     import glob
     files = sorted(glob.glob("/repo/examples/**/*.pg", recursive=True))
     for f in files + ["<grammar of grammars>"]:
@@ -121,7 +123,92 @@ json.dump(out, sys.stdout)
     return res
 
 
+MODULES = [
+    "R: T ';';\nterminals\nT: /\\w+/;\n",
+    "R: T | T T;\nterminals\nT: /[a-z]/;\n",
+    "R: T ';' | U ';';\nterminals\nT: /\\w+/;\nU: /[a-z]+/;\n",
+    "R: 't' Q;\nQ: T | EMPTY;\nterminals\nT: /\\w/;\n",
+]
+ROOTS = [
+    "import 'a.pg' as a;\nimport 'b.pg' as b;\nS: X+;\nX: a.R | b.R;\n",
+    "import 'b.pg';\nimport 'a.pg';\nS: a.R b.R | b.R a.R | a.R;\n",
+]
+
+
+def modular_unit(u):
+    """grammars split over files whose modules declare symbols with the SAME
+    short names (a.T, b.T): serialised table and forest order under each hash
+    seed, in fresh processes"""
+    import shutil
+    import tempfile
+    judge = Judge(PROP, KNOWN)
+    code = r'''
+import hashlib, json, sys, io, contextlib, os
+from parglare import Grammar, GLRParser
+from parglare.tables import create_table
+from parglare.tables.persist import table_to_serializable
+d = sys.argv[1]
+out = []
+with contextlib.redirect_stdout(io.StringIO()):
+    g = Grammar.from_file(os.path.join(d, "root.pg"))
+    t = create_table(g, prefer_shifts=False, prefer_shifts_over_empty=False)
+    out.append(json.dumps(table_to_serializable(t), sort_keys=True))
+    out.append([(c.state.state_id, c.term.fqn, [p.prod_id for p in c.productions])
+                for c in t.sr_conflicts + t.rr_conflicts])
+    p = GLRParser(Grammar.from_file(os.path.join(d, "root.pg")), table=t)
+for s in ["x;", "x; y;", "t x", "a b", "x y z", "t", "t t"]:
+    try:
+        f = p.parse(s)
+        n = f.solutions
+        out.append([f[i].to_str() for i in range(min(n, 12))])
+    except Exception as e:
+        out.append(type(e).__name__)
+for f_ in os.listdir(d):
+    if f_.endswith((".pgc", ".tmp")):
+        os.remove(os.path.join(d, f_))
+print(hashlib.sha256(json.dumps(out).encode()).hexdigest()[:16])
+'''
+    runs = 0
+    n = 0
+    for mi, mod in enumerate(MODULES):
+        for ri, root in enumerate(ROOTS):
+            d = tempfile.mkdtemp(prefix="pgmc-c16m-")
+            try:
+                for nme, text in (("a.pg", mod), ("b.pg", mod), ("root.pg", root)):
+                    open(os.path.join(d, nme), "w").write(text)
+                digs = {}
+                for hs in u["seeds"]:
+                    pp = (os.environ["PGMC_REPO"] + ":" if os.environ.get(
+                        "PGMC_REPO") else "")
+                    env = dict(os.environ, PYTHONHASHSEED=str(hs),
+                               PYTHONDONTWRITEBYTECODE="1",
+                               **({"PYTHONPATH": pp} if pp else {}))
+                    r = subprocess.run([sys.executable, "-c", code, d],
+                                       capture_output=True, text=True, env=env,
+                                       timeout=300)
+                    runs += 1
+                    key = r.stdout.strip() if r.returncode == 0 else \
+                        "ERR:" + r.stderr.strip()[-120:]
+                    digs.setdefault(key, []).append(hs)
+                n += 1
+                if len(digs) != 1:
+                    judge.deviation("NONDETERMINISM", "modular", f"m{mi}/r{ri}",
+                                    "", "table / conflicts / forest order of a "
+                                    "modular grammar depend on the hash seed",
+                                    {"digests": digs},
+                                    {"files": {"a.pg": mod, "b.pg": mod,
+                                               "root.pg": root}})
+            finally:
+                shutil.rmtree(d, ignore_errors=True)
+    res = judge.result()
+    res.update(evaluations=runs, nontrivial=n, samples=[{"modular": n}],
+               states=0, transitions=0, traces=runs)
+    return res
+
+
 def run_unit(u):
+    if u["space"] == "modular":
+        return modular_unit(u)
     if u["space"] == "corpus":
         return corpus_unit(u)
     judge = Judge(PROP, KNOWN)
